@@ -40,6 +40,7 @@ class Contract:
         self.effects_free = kw.pop("effects_free", False)
         self.self_type = kw.pop("self_type", None)
         self.lemmas = list(kw.pop("lemmas", []))
+        self.bounded = kw.pop("bounded", False)         # BOUNDED stand-in: clauses are only evaluated natively on generated inputs
         self.no_native = kw.pop("no_native", False)     # never execute the real function natively (search / cross-check)
         self.det_raise = kw.pop("det_raise", False)     # whether it raises is an (uninterpreted) function of the arguments
         self.noreturn = kw.pop("noreturn", False)       # the function only ever exits by raising
